@@ -181,6 +181,11 @@ func refFld(p Term, fid int) Term {
 }
 func refElem(b, i Term) Term { return app(SRef, "elem", b, i) }
 
+// sliceAt is the address of element i of slice s. It is an uninterpreted
+// function tied to elem(sbase s, soff s + i) by an axiom, so that quantified
+// specifications can use it as an arithmetic-free trigger.
+func sliceAt(s, i Term) Term { return app(SRef, "at", s, i) }
+
 func mkSlice(base, off, ln, cp Term) Term { return app(SSlice, "mkslice", base, off, ln, cp) }
 func sBase(s Term) Term                  { return app(SRef, "sbase", s) }
 func sOff(s Term) Term                   { return app(SInt, "soff", s) }
@@ -439,6 +444,8 @@ func (vc *VC) query(o *Obligation, withModel bool) string {
 const basePreamble = `(declare-datatypes ((Ref 0)) (((null) (obj (objid Int)) (loc (locid Int)) (fld (fparent Ref) (fid Int)) (elem (ebase Ref) (eidx Int)))))
 (declare-datatypes ((Slice 0)) (((mkslice (sbase Ref) (soff Int) (slen Int) (scap Int)))))
 (declare-datatypes ((Iface 0)) (((mkiface (itag Int) (ibox Ref)))))
+(declare-fun at (Slice Int) Ref)
+(assert (forall ((s Slice) (i Int)) (! (= (at s i) (elem (sbase s) (+ (soff s) i))) :pattern ((at s i)))))
 (declare-sort Str 0)
 (declare-sort Fn 0)
 (declare-datatypes ((Unit 0)) (((unit))))
